@@ -352,6 +352,10 @@ func runExhaust(h *XHistory, u upstream.Upstream) {
 					m, err := u.ExchangeContext(ctx, xQuery(c))
 					cancel()
 					if err != nil {
+						// the server is healthy, answers within a round trip and a
+						// fresh connection is one dial away: running out of ids on
+						// the old connection is no reason for an exchange to fail
+						s.Fail("C14", "failed-against-healthy-server", "exchange %s at the end of a connection's id space failed although the server is healthy and reachable: %v", c.Token, err)
 						return
 					}
 					if rm, perr := dnsToRef(m); perr == nil {
